@@ -103,7 +103,9 @@ func resolveFieldAliases(w *World) {
 	}
 	runner := structOfNamed("", "PipelineRunner")
 	byType(runner, map[string]func(string, *types.Var) bool{
-		"jobsByID":         func(t string, _ *types.Var) bool { return strings.HasPrefix(t, "map[") && strings.Contains(t, "uuid.UUID]") && strings.HasSuffix(t, "PipelineJob") },
+		"jobsByID": func(t string, _ *types.Var) bool {
+			return strings.HasPrefix(t, "map[") && strings.Contains(t, "uuid.UUID]") && strings.HasSuffix(t, "PipelineJob")
+		},
 		"defs":             has("definition.PipelinesDef"),
 		"isShuttingDown":   is("bool"),
 		"persistRequests":  func(t string, _ *types.Var) bool { return strings.HasPrefix(t, "chan ") },
